@@ -31,6 +31,8 @@ type c02Case struct {
 	Kinds         []string `json:"kinds"` // link files lying in the directory for step s0
 	LayoutWrapper string   `json:"layout_wrapper"`
 	Intermediate  string   `json:"intermediate"` // layout | caller | none
+	SecondFirst   bool     `json:"second_first"`        // the other step precedes s0 in the layout
+	ForeignInter  bool     `json:"foreign_intermediate"` // the foreign CA is handed over as an additional intermediate
 	Repeats       int      `json:"repeats"`
 }
 
@@ -233,6 +235,9 @@ func c02World(c c02Case) (hx.World, map[string][]string, error) {
 	if c.Intermediate == "caller" {
 		w.Intermediates = []string{"inter"}
 	}
+	if c.ForeignInter {
+		w.Intermediates = append(w.Intermediates, "foreignroot")
+	}
 	truth := map[string][]string{}
 	b := &c02Builder{c: c}
 	for _, kn := range c.Kinds {
@@ -262,7 +267,11 @@ func c02World(c c02Case) (hx.World, map[string][]string, error) {
 		s1 := hx.MStep{Type: "step", Name: "s1", ExpMat: [][]string{{"ALLOW", "*"}}, ExpProd: [][]string{{"ALLOW", "*"}},
 			PubKeys: []string{hx.PoolKey(c02D).KeyID}, ExpCommand: []string{"build"}, Threshold: 1,
 			Constraints: []hx.MConstraint{{CommonName: "*", DNSNames: []string{"*"}, Emails: []string{"*"}, Organizations: []string{"other"}, Roots: []string{"*"}, URIs: []string{"*"}}}}
-		lay.Steps = append(lay.Steps, s1)
+		if c.SecondFirst {
+			lay.Steps = []hx.MStep{s1, lay.Steps[0]}
+		} else {
+			lay.Steps = append(lay.Steps, s1)
+		}
 		l := c02Link("s1-honest")
 		l.Name = "s1"
 		w.Links = append(w.Links, hx.WMetaFile{Name: hx.LinkFileName("s1", hx.PoolKey(c02D).KeyID), Wrapper: "legacy", Meta: hx.MMeta{Link: l}, Sigs: []hx.WSig{{Key: c02D}}})
@@ -365,7 +374,9 @@ func c02Eval(c c02Case, r *hx.Rec) error {
 	}
 	sorted := append([]string{}, c.Kinds...)
 	sort.Strings(sorted)
-	r.Key("%d|%v|%s|%s|%s", c.Threshold, c.SecondStep, c.LayoutWrapper, c.Intermediate, strings.Join(sorted, ","))
+	r.Label("second_step=%v/first=%v", c.SecondStep, c.SecondStep && c.SecondFirst)
+	r.Label("foreign_intermediate=%v", c.ForeignInter)
+	r.Key("%d|%v%v%v|%s|%s|%s", c.Threshold, c.SecondStep, c.SecondFirst, c.ForeignInter, c.LayoutWrapper, c.Intermediate, strings.Join(sorted, ","))
 
 	var first *bool
 	for rep := 0; rep < c.Repeats; rep++ {
@@ -458,6 +469,8 @@ func c02Gen(t *rapid.T) c02Case {
 		LayoutWrapper: rapid.SampledFrom([]string{"legacy", "dsse"}).Draw(t, "layoutwrapper"),
 		Intermediate:  rapid.SampledFrom([]string{"layout", "caller", "layout", "none"}).Draw(t, "intermediate"),
 		Repeats:       hx.Pick(8, 32),
+		SecondFirst:   rapid.Bool().Draw(t, "secondfirst"),
+		ForeignInter:  rapid.Bool().Draw(t, "foreigninter"),
 	}
 	c.Kinds = rapid.SliceOfNDistinct(rapid.SampledFrom(c02KindNames), 0, 5, rapid.ID[string]).Draw(t, "kinds")
 	return c
@@ -490,7 +503,7 @@ func c02Exhaustive(t *testing.T) {
 				continue
 			}
 			c := c02Case{Threshold: th, SecondStep: n%3 == 0, LayoutWrapper: []string{"legacy", "dsse"}[n%2], Intermediate: []string{"layout", "caller"}[(n/2)%2],
-				Kinds: append([]string{}, cur...), Repeats: hx.Pick(6, 16)}
+				Kinds: append([]string{}, cur...), Repeats: hx.Pick(6, 16), SecondFirst: n%5 < 2, ForeignInter: (n/3)%2 == 0}
 			r := &hx.Rec{}
 			err := c02Eval(c, r)
 			r.Label("enumerated")
